@@ -94,7 +94,7 @@ def join_everything_in_dependency_order(ctx):
                f'code on the {a} stage submits to the {b} stage: joining {b} first lets it receive work after its join')
 
 
-@rule('C18.c', ['C18', 'C15'], floor=2)
+@rule('C18.c', ['C18', 'C15', 'C02'], floor=2)
 def per_transfer_state(ctx):
     """Objects created per transfer are not stored on the manager, a class or a module;
     only the frozen inventory of manager attributes is handed to tasks; no function of
@@ -114,6 +114,23 @@ def per_transfer_state(ctx):
                 d = dotted(t)
                 if d and d.startswith('self.'):
                     ctx.ob(m, n, d == 'self._id_counter', f'{d} is written per call: per-transfer state must not live on the shared manager')
+    # the other long-lived front-end objects: legacy S3Transfer and the process-pool downloader keep no per-call state either
+    # (an object cached across calls - a downloader with its IO queue, a monitor entry - is shared by concurrent calls)
+    shared = {'__init__.S3Transfer': set(), 'processpool.ProcessPoolDownloader': {'self._started', 'self._manager', 'self._transfer_monitor', 'self._submitter',
+                                                                              'self._workers', 'self._download_request_queue', 'self._worker_queue', 'self._transfer_config',
+                                                                              'self._client_factory'}}
+    for cq, allowed in shared.items():
+        cl = ctx.cls(cq)
+        for name, m in cl.methods.items():
+            if m.name == '__init__':
+                continue
+            for n in own_nodes(m.node):
+                tg = n.targets if isinstance(n, ast.Assign) else ([n.target] if isinstance(n, (ast.AugAssign, ast.AnnAssign)) else [])
+                for t in tg:
+                    d = dotted(t)
+                    if d and d.startswith('self.') and d.count('.') == 1:
+                        ctx.ob(m, n, d in allowed, f'{d} is written per call: per-download state must not live on the shared {cl.name} (concurrent calls would share it)')
+    ctx.ob('__init__.S3Transfer', 'no per-call attribute stores on the legacy front-end', True, 'shared-object state inventory', trivial=True)
     inv = {'client', 'config', 'osutil', 'request_executor', 'transfer_future', 'io_executor', 'bandwidth_limiter'}
     keys = set()
     for mname in ('_get_submission_task_main_kwargs', 'upload', 'download', 'copy', 'delete'):
